@@ -513,3 +513,83 @@ func paramNamed(fn *ssa.Function, name string) *ssa.Parameter {
 	anchorFail("%s has no parameter %q", fn, name)
 	return nil
 }
+
+// deepMust lifts an instruction predicate over helpers: the result holds for an instruction that satisfies pred itself,
+// or that statically calls a function of the same package on EVERY path of which (entry to return) an instruction
+// satisfying the lifted predicate is executed. Lets must-pass-through rules survive "block extracted into a helper".
+func deepMust(pred func(ssa.Instruction) bool, depth int) func(ssa.Instruction) bool {
+	var lifted func(ins ssa.Instruction, d int) bool
+	memo := map[*ssa.Function]int{} // 0 unknown, 1 yes, 2 no
+	lifted = func(ins ssa.Instruction, d int) bool {
+		if pred(ins) {
+			return true
+		}
+		if d <= 0 {
+			return false
+		}
+		ci, ok := ins.(ssa.CallInstruction)
+		if !ok {
+			return false
+		}
+		if _, isGo := ins.(*ssa.Go); isGo {
+			return false
+		}
+		g := ci.Common().StaticCallee()
+		if g == nil || g.Blocks == nil || ins.Parent() == nil || funcPkgPath(g) != funcPkgPath(ins.Parent()) || g == ins.Parent() {
+			return false
+		}
+		switch memo[g] {
+		case 1:
+			return true
+		case 2:
+			return false
+		}
+		memo[g] = 2 // recursion guard
+		escape := pathAvoiding(g, nil, func(i ssa.Instruction) bool { return lifted(i, d-1) }, isReturn)
+		if escape == nil {
+			memo[g] = 1
+			return true
+		}
+		return false
+	}
+	return func(ins ssa.Instruction) bool { return lifted(ins, depth) }
+}
+
+// deepMay: pred holds for the instruction or somewhere inside a same-package helper it statically calls.
+func deepMay(pred func(ssa.Instruction) bool, depth int) func(ssa.Instruction) bool {
+	var lifted func(ins ssa.Instruction, d int) bool
+	seen := map[*ssa.Function]bool{}
+	lifted = func(ins ssa.Instruction, d int) bool {
+		if pred(ins) {
+			return true
+		}
+		if d <= 0 {
+			return false
+		}
+		ci, ok := ins.(ssa.CallInstruction)
+		if !ok {
+			return false
+		}
+		g := ci.Common().StaticCallee()
+		if g == nil || g.Blocks == nil || ins.Parent() == nil || funcPkgPath(g) != funcPkgPath(ins.Parent()) || seen[g] {
+			return false
+		}
+		seen[g] = true
+		found := false
+		var scan func(f *ssa.Function)
+		scan = func(f *ssa.Function) {
+			eachInstr(f, func(i ssa.Instruction) {
+				if !found && lifted(i, d-1) {
+					found = true
+				}
+			})
+			for _, a := range f.AnonFuncs {
+				scan(a)
+			}
+		}
+		scan(g)
+		seen[g] = false
+		return found
+	}
+	return func(ins ssa.Instruction) bool { return lifted(ins, depth) }
+}
